@@ -209,12 +209,38 @@ def check(ctx):
     # Callback.__enter__/__exit__ delegate to add_callbacks
     en = cbc.own_methods.get("__enter__")
     exi = cbc.own_methods.get("__exit__")
-    ok = en is not None and bool(find("self._cm = add_callbacks(self)", en)) and exi is not None and bool(find("self._cm.__exit__(*M_a)", exi))
-    ctx.ob("SCOPE.callback-context", cbc.node, "Callback.__enter__/__exit__ delegate to one add_callbacks context", ok)
+    ok = en is not None and exi is not None
+    if ok:
+        mk = find("cm = add_callbacks(self)", en)
+        push = find("self.__dict__.setdefault('_cms', []).append(cm)", en)
+        ent = find("cm.__enter__()", en)
+        pop = find("self._cms.pop().__exit__(*M_a)", exi)
+        ok = len(mk) == 1 and len(push) == 1 and len(ent) == 1 and len(pop) == 1 and dominates(en, mk[0][0], push[0][0]) and dominates(en, mk[0][0], ent[0][0])
+    ctx.ob("SCOPE.callback-context", cbc.node, "Callback.__enter__ opens ONE add_callbacks context per `with` and pushes it; __exit__ pops and closes exactly that one", ok, "" if ok else "a single slot for the context is overwritten on re-entry: the outer `with` can no longer undo its own activation (the callback stays active for ever) or the inner exit deactivates it for the outer scope")
     reg = cbc.own_methods.get("register")
     unreg = cbc.own_methods.get("unregister")
     ok = reg is not None and bool(find("Callback.active.add(self._callback)", reg)) and unreg is not None and bool(find("Callback.active.remove(self._callback)", unreg) + find("Callback.active.discard(self._callback)", unreg))
     ctx.ob("SCOPE.register", cbc.node, "register adds / unregister removes self._callback", ok)
+    # ---------------- every active callback is called: the per-slot collections keep multiplicity and order
+    tr = [r for r in returns(up) if r in zips]
+    ok = len(tr) == 1 and isinstance(tr[0].value, ast.ListComp) and isinstance(tr[0].value.elt, ast.ListComp)
+    ctx.ob("CNT.slots.lists", up, "unpack_callbacks builds one LIST per slot ([i for i in f if i]): one entry per active callback, in activation order", ok, "" if ok else "a set per slot calls a hook shared by two active callbacks only once per task (and in arbitrary order)")
+    # ---------------- Callback subclasses that extend __enter__/__exit__ go through the base class's scoped activation
+    n_sub = 0
+    for ci in model.subclasses(cbc, "dask"):
+        if "/tests/" in ci.module.relpath:
+            continue
+        for mname, want in (("__enter__", "super().__enter__()"), ("__exit__", "super().__exit__(*args)")):
+            m_ = ci.own_methods.get(mname)
+            if m_ is None:
+                continue
+            n_sub += 1
+            sup = [c for c in ast.walk(m_) if isinstance(c, ast.Call) and isinstance(c.func, ast.Attribute) and c.func.attr == mname and isinstance(c.func.value, ast.Call) and call_name(c.func.value) == "super"]
+            direct = [c for c in ast.walk(m_) if isinstance(c, ast.Call) and (call_name(c) or "") in ("self.register", "self.unregister")]
+            ok = len(sup) == 1 and not direct and all(any(s_ in ast.walk(r.value) for s_ in sup) for r in returns(m_) if r.value is not None) and (mname == "__exit__" or bool(returns(m_)))
+            ctx.ob("SCOPE.callback-subclass.delegates", m_, f"{ci.name}.{mname} activates/deactivates through {want} (the nesting-aware context of Callback)", ok, "" if ok else "register()/unregister() have no notion of nesting: leaving an inner `with` deactivates a callback that an outer scope (or an explicit register()) had activated, and the outer exit raises KeyError")
+    ctx.count("callback_subclass_contexts", n_sub)
+    ctx.floor("callback_subclass_contexts", 4, "Profiler, ResourceProfiler (enter/exit each)")
 
 
 VARIANTS = [
